@@ -10,6 +10,7 @@ Code side: small states/operators with Gaussian-integer data on every geometry c
 Python only drives and observes (numpy.einsum on the tensors' public data); TLC recomputes every value.
 """
 
+import concurrent.futures
 import json
 import os
 import random
@@ -486,29 +487,51 @@ def run(ctx):
     quick = ctx.tier == "quick"
     rng = random.Random(606 + ctx.seed)
 
-    # 1. TLC, exhaustive: every accepted route's transcription equals the reference update
+    # 1. TLC, exhaustive: every accepted route's transcription equals the reference update.
+    #    The independent TLC runs (exhaustive run, small coverage run, mutant self-tests, simulation for the
+    #    replay) are started together: 8 + 2 + 4 + 1 workers.
     fams = ("Choose", "ApplyWired", "ApplySandwich", "ApplySwapped", "ApplySubMpo", "ApplyOpLazy", "Reject", "CheckFacts")
-    ctx.model_check("MC_C06", "MC_quick.cfg" if quick else "MC_thorough.cfg", name="routes-agree", coverage=False, timeout=1500)
-    # per-action coverage from a small run (the coverage instrumentation is far too slow on the exact arithmetic
-    # of the large run)
-    ctx.model_check("MC_C06", "MC_cover.cfg", name="coverage", require_actions=fams, workers=2, timeout=600)
-    for cfg, what in (("MC_mut_noflip.cfg", "gate_with_auto_swap without flipping the gate for i > j"),
-                      ("MC_mut_nosort.cfg", "sub-MPO route without re-sorting the gate legs"),
-                      ("MC_mut_sandwich.cfg", "dagger sandwich without exchanging the two arrays")):
-        r = T.run_tlc("MC_C06", cfg, ctx.spec_dir, workers=4, allow_violation=True, scratch=ctx.scratch, timeout=600)
-        if r.violated != "RoutesAgree":
-            raise MachineryError("model self-test %s: expected RoutesAgree to be violated" % cfg)
-        ctx.extra.setdefault("model_selftests", []).append("%s: TLC finds a RoutesAgree counterexample (%s)" % (cfg, what))
-        if quick:
-            break
+    muts = [("MC_mut_noflip.cfg", "gate_with_auto_swap without flipping the gate for i > j"),
+            ("MC_mut_nosort.cfg", "sub-MPO route without re-sorting the gate legs"),
+            ("MC_mut_sandwich.cfg", "dagger sandwich without exchanging the two arrays")]
+    if quick:
+        muts = muts[ctx.seed % 3:][:1]
+    nsim = 140 if quick else 1500
+
+    def main_mc():
+        return ctx.model_check("MC_C06", "MC_quick.cfg" if quick else "MC_thorough.cfg", name="routes-agree", coverage=False,
+                               timeout=2400, workers=8 if quick else 12)
+
+    def cover_mc():
+        # per-action coverage from a small run (TLC's coverage instrumentation is far too slow on the exact
+        # arithmetic of the large run)
+        return ctx.model_check("MC_C06", "MC_cover.cfg", name="coverage", require_actions=fams, workers=2, timeout=900)
+
+    def mutants():
+        out = []
+        for cfg, what in muts:
+            r = T.run_tlc("MC_C06", cfg, ctx.spec_dir, workers=3, allow_violation=True, scratch=ctx.scratch, timeout=900)
+            if r.violated != "RoutesAgree":
+                raise MachineryError("model self-test %s: expected RoutesAgree to be violated" % cfg)
+            out.append("%s: TLC finds a RoutesAgree counterexample (%s)" % (cfg, what))
+        return out
+
+    if os.environ.get("C06_ONLY_TRACES"):     # development aid (mutation runs against another quimb tree): the
+        main_mc = cover_mc = lambda: None     # model runs do not depend on quimb
+        mutants = lambda: ["skipped"]         # noqa
+    with concurrent.futures.ThreadPoolExecutor(max_workers=4) as pool:
+        futs = [pool.submit(f) for f in (main_mc, cover_mc, mutants)]
+        fsim = pool.submit(simulated_behaviours, ctx, nsim)
+        for f in futs:
+            f.result()
+        ctx.extra["model_selftests"] = futs[2].result()
+        behs = fsim.result()
 
     dtypes = ["complex128"] * 7 + ["float64", "complex64", "float32"]
     recs = []
     ntr = 0
 
     # 2. S->C: simulated behaviours of the model replayed into quimb
-    nsim = 140 if quick else 1500
-    behs = simulated_behaviours(ctx, nsim)
     steps = 0
     for k, b in enumerate(behs):
         tr, done = replay(b, ntr, 1000 * ctx.seed + k, dtypes[k % len(dtypes)])
